@@ -217,7 +217,13 @@ class Sym:
                 blk = self.blocks[b]
                 for st in blk["s"]:
                     if st["k"] == "assign":
-                        self.assign(env, st["pl"], self.rvalue(env, st["rv"]))
+                        val = self.rvalue(env, st["rv"])
+                        if val[0] == "bin" and val[1].endswith("WithOverflow") and not st["pl"]["p"]:
+                            # keep the operand type of a checked operation (the destination is `(T, bool)`): the folder needs it to compute the overflow flag
+                            ts = self.prog.ty_s(self.mir["locals"][st["pl"]["l"]])
+                            if ts.startswith("(") and ts.endswith(", bool)"):
+                                val = val + (ts[1:-7],)
+                        self.assign(env, st["pl"], val)
                     elif st["k"] == "setdiscr":
                         self.assign(env, st["pl"], ("setdiscr", self.place(env, st["pl"]), st["vidx"]))
                 t = blk["t"]
